@@ -180,6 +180,10 @@ def one_model(ctx, prog, script, rng):
                 elif changed:
                     ctx.count('infeasible_request_changed_state')
                 continue
+            if isinstance(res.get('exc'), IndexError):
+                # a period inside the default range, with any offset that stays inside the span, is never "out of range"
+                ctx.violation('feasible-period-rejected', f'{entry}({t}, {call_opts}) on a span of {n} with LAGS={L}, LEADS={D} raised IndexError: {res["exc"]}', case)
+                continue
             allowed = {(nm, tn + k) for nm, k in writes} | {('status', tn), ('iterations', tn)}
             if 'offset' in call_opts:
                 allowed |= {(nm, tn) for nm in Model.ENDOGENOUS}
